@@ -70,7 +70,7 @@ func genC14(rt *rapid.T) c14Scn {
 		x.Pos[1] = genPosFaults(rt, "fb", 60, 4, 25)
 	}
 	if rapid.Bool().Draw(rt, "reconfloss") {
-		j := rapid.IntRange(1, 3).Draw(rt, "rj")
+		j := rapid.SampledFrom([]int{1, 2, 3, 3, 6, 8}).Draw(rt, "rj") // up to 8 consecutive RE-CONFIG packets lost per direction
 		x.Rules = append(x.Rules, vfRule{Side: 0, Kind: "type", Type: wtRECONFIG, J: j}, vfRule{Side: 1, Kind: "type", Type: wtRECONFIG, J: j})
 	}
 	return x
